@@ -2,7 +2,8 @@ from checks import both, EX
 
 CHECK = {
     'level': 'exploration',
-    'rule': ('the C03 closure generator drives tables into every reachable state of the scope; on replicas of every new '
+    'rule': ('[keys and shapes] a fourth key family of boundary keys (0, 1, SIZE_MAX, SIZE_MAX-1, 2^63+-1, 2^32+-1, 2^31 ...) in own closure scopes and a quarter of the random histories, tracked as FIRST key after init / resize / completed rehash / clear; exact doublings 3->6, 5->10, 7->14, 6->12, 4->8; cstl_hash_div/mul passed directly; visitors of find/foreach/foreach_const call size/load and a nested foreach_const on the same table and work a bystander table; everything but resize/shrink_to_fit runs with a refusing allocator in every second case; '
+             'the C03 closure generator drives tables into every reachable state of the scope; on replicas of every new '
              'state seven terminal probes run: foreach_const (full / early stop), foreach (full / early stop / visitor erases '
              'and frees the visited element), clear with a callback that poisons and frees, clear(NULL); after clear: size 0, '
              'bucket array released (allocator events), then resize + inserts + finds + erase + enumeration + second clear '
